@@ -43,5 +43,5 @@ FAULT_KINDS = ["cache_delete", "cache_warm", "tolerance_flip", "tolerance_restor
 PROBES = [
     "table_deleted_then_rebuilt", "one_table_of_a_joint_group_deleted_siblings_alive", "operation_after_cache_deletion", "operation_inside_tolerance_flip",
     "operation_right_after_tolerance_restore", "with_var_projection_para_false", "loss_object_used_with_2_modes_and_2_datasets", "loss_or_algo_object_reused",
-    "step_raised_same_in_both_worlds",
+    "step_raised_same_in_both_worlds", "invalid_setter_call_raised",
 ]
